@@ -51,6 +51,12 @@ func VerifC11Defaults() {
 		implicit = mk(c11Svc(nil), map[string]any{kind: map[string]any{"r": body(nil)}})
 		explicit = mk(c11Svc(nil), map[string]any{kind: map[string]any{"r": body("p_r")}})
 		different = mk(c11Svc(nil), map[string]any{kind: map[string]any{"r": body(v)}})
+		if vrtChoice("fileDeclaresAnotherName", 2) == 1 {
+			// the project name is the one the caller requested (p), whatever `name:` the file carries
+			implicit["name"] = "fromfile"
+			explicit["name"] = "fromfile"
+			different["name"] = "fromfile"
+		}
 		diffCheck = func(m map[string]any) bool {
 			r, _ := m[kind].(map[string]any)["r"].(map[string]any)
 			return r["name"] == any(v)
